@@ -139,12 +139,14 @@ class RayGenerator:
         Calculate the starting ray z-coordinate offset for systems with an
         object at infinity. This is relative to the first surface of the optic.
 
-        This method chooses a starting point that is equivalent to the entrance
-        pupil diameter of the optic.
+        This method chooses a starting point that is one entrance pupil
+        diameter in front of the leftmost surface and of the entrance pupil,
+        so that the rays always travel forward to both.
 
         Returns:
             float: The z-coordinate offset relative to the first surface.
         """
         z = self.optic.surface_group.positions[1:-1]
         offset = self.optic.paraxial.EPD()
-        return offset - np.min(z)
+        EPL = self.optic.paraxial.EPL()
+        return offset - min(np.min(z), EPL)
